@@ -106,6 +106,8 @@ pub enum Mut {
     EditRevealed(String, Option<String>, Option<String>), // referent, raw, encoded
     EditGroupValue(String, String, Option<String>, Option<String>),
     AddGroupValue(String, String, String, String), // referent, extra name, raw, encoded
+    RenameGroupKey(String, String, String),        // referent, old name, new name
+    DupGroupKey(String, String, String),           // referent, existing name, additional name with the same value
     EditProofRevealed(usize, String, String), // sub-proof, attr name, new encoded value inside the CL proof
     EditProofPred(usize, &'static str, i64),   // rewrite the first predicate inside sub-proof i
     AlterSub(usize),                          // change a number of sub-proof i
@@ -221,6 +223,20 @@ fn apply_legacy(doc: &mut Value, provs: &mut Vec<Prov>, agg: &mut AggProv, m: &M
         Mut::AddGroupValue(r, n, raw, enc) => {
             if let Some(g) = doc["requested_proof"]["revealed_attr_groups"].get_mut(r) {
                 g["values"][n] = json!({"raw": raw, "encoded": enc});
+            }
+        }
+        Mut::RenameGroupKey(r, old, new) => {
+            if let Some(vals) = doc["requested_proof"]["revealed_attr_groups"].get_mut(r).and_then(|g| g["values"].as_object_mut()) {
+                if let Some(v) = vals.remove(old) {
+                    vals.insert(new.clone(), v);
+                }
+            }
+        }
+        Mut::DupGroupKey(r, old, new) => {
+            if let Some(vals) = doc["requested_proof"]["revealed_attr_groups"].get_mut(r).and_then(|g| g["values"].as_object_mut()) {
+                if let Some(v) = vals.get(old).cloned() {
+                    vals.insert(new.clone(), v);
+                }
             }
         }
         Mut::EditProofRevealed(i, n, v) => {
@@ -451,6 +467,30 @@ fn shapes() -> Vec<(&'static str, ReqSpec, Vec<Pick>, Vec<(String, String)>)> {
             vec![],
         ),
         (
+            "two-creds-same-creddef",
+            ReqSpec::new(NONCE).attr("a_name", "name").attr("a_name2", "name").pred("p_age", "age", ">=", 18),
+            vec![pick(0, &[("a_name", true)], &["p_age"], None), pick(6, &[("a_name2", true)], &[], None)],
+            vec![],
+        ),
+        (
+            "two-creddefs-same-schema",
+            ReqSpec::new(NONCE).attr("a_name", "name").attr("a_h", "height").pred("p_age", "age", ">=", 18),
+            vec![pick(0, &[("a_name", true)], &[], None), pick(1, &[("a_h", true)], &["p_age"], None)],
+            vec![],
+        ),
+        (
+            "single-and-group-same-attribute",
+            ReqSpec::new(NONCE).attr("a_name", "name").group("g", &["name", "height"]),
+            vec![pick(0, &[("a_name", true), ("g", true)], &[], None)],
+            vec![],
+        ),
+        (
+            "same-key-attr-and-pred",
+            ReqSpec::new(NONCE).attr("1", "name").pred("1", "salary", ">", 1000),
+            vec![pick(0, &[("1", true)], &[], None), pick(2, &[], &["1"], None)],
+            vec![],
+        ),
+        (
             "group",
             ReqSpec::new(NONCE).group("g", &["name", "height"]).attr("a_sex", "sex").pred("p_a", "age", "<=", 28),
             vec![pick(0, &[("g", true), ("a_sex", false)], &["p_a"], None)],
@@ -557,6 +597,8 @@ fn legacy_structural(r: &mut Rng, j: &VJob) -> Vec<Mut> {
         10 => vec![Mut::MoveRef("unrevealed_attrs", *r.pick(&["revealed_attrs", "self_attested_attrs"]), any_ref(r, &unrev))],
         11 => vec![Mut::AddSelf(any_ref(r, &[revealed.clone(), unrev.clone()].concat()), "self".into())],
         12 => vec![Mut::EditRevealed(any_ref(r, &revealed), Some("Mallory".into()), if r.chance(1, 2) { Some("1234".into()) } else { None })],
+        13 if r.chance(1, 3) => vec![Mut::DupGroupKey("g".into(), r.pick(&["name", "height", "age"]).to_string(), r.pick(&["Name", "n a m e", "HEIGHT", "salary"]).to_string())],
+        13 if r.chance(1, 2) => vec![if r.chance(1, 2) { Mut::RenameGroupKey("g".into(), r.pick(&["name", "height", "age"]).to_string(), r.pick(&["Name", "n a m e", "HEIGHT", "salary"]).to_string()) } else { Mut::AddGroupValue("g".into(), r.pick(&["Name", "salary", "name "]).to_string(), "x".into(), "1".into()) }],
         13 => vec![Mut::RemoveRef(*r.pick(&["revealed_attrs", "unrevealed_attrs", "predicates"]), any_ref(r, &[revealed.clone(), unrev.clone(), preds.clone()].concat()))],
         14 => if r.chance(1, 2) { vec![Mut::AlterSub(i)] } else { vec![Mut::EditProofPred(i, *r.pick(&["GT", "LT", "GE", "LE"]), *r.pick(&[2147483647i64, -2147483648, 18, 0])) ] },
         _ => vec![Mut::AlterAgg],
@@ -614,6 +656,20 @@ fn common_families(r: &mut Rng, w: &World, thorough: bool) -> Vec<VJob> {
 
 fn c01_jobs(r: &mut Rng, w: &World, thorough: bool) -> Vec<VJob> {
     let mut jobs = common_families(r, w, thorough);
+    for pad in ["Name", "n a m e", "height", "HEIGHT"] {
+        let build = ReqSpec::new(NONCE).group("g", &["name"]);
+        let verify = ReqSpec::new(NONCE).group("g", &["name", "height"]);
+        let mut j = job("cross-request:group-padded-with-copy", Fmt::Legacy, &build, &verify, vec![pick(0, &[("g", true)], &[], None)], w);
+        j.muts = vec![Mut::DupGroupKey("g".into(), "name".into(), pad.into())];
+        jobs.push(j);
+    }
+    for (pad, praw) in [("Name", "Alex"), ("n a m e", "Alex"), ("height", "175"), ("HEIGHT", "175")] {
+        let build = ReqSpec::new(NONCE).group("g", &["name"]);
+        let verify = ReqSpec::new(NONCE).group("g", &["name", "height"]);
+        let mut j = job("cross-request:group-padded", Fmt::Legacy, &build, &verify, vec![pick(0, &[("g", true)], &[], None)], w);
+        j.muts = vec![Mut::AddGroupValue("g".into(), pad.into(), praw.into(), "175".into())];
+        jobs.push(j);
+    }
     // unrevealed referent served by a credential whose schema lacks the attribute
     for fmt in [Fmt::Legacy, Fmt::W3C] {
         let build = ReqSpec::new(NONCE).attr("a_name", "name").attr("a_x", "sex");
@@ -648,6 +704,18 @@ fn c03_jobs(r: &mut Rng, w: &World, thorough: bool) -> Vec<VJob> {
     for (n, raw, enc) in [("name", Some("Mallory"), None), ("height", None, Some("180")), ("name", None, Some("5"))] {
         let mut j = with_shape("edit-group-value", Fmt::Legacy, w, g);
         j.muts = vec![Mut::EditGroupValue("g".into(), n.into(), raw.map(|x: &str| x.to_string()), enc.map(|x: &str| x.to_string()))];
+        jobs.push(j);
+    }
+    // the same attribute requested as a single referent AND inside a group; the group copy is edited
+    let sg = shapes().into_iter().find(|s| s.0 == "single-and-group-same-attribute").unwrap();
+    for (n, raw, enc) in [("name", Some("Mallory"), Some("12345")), ("name", None, Some("1")), ("height", None, Some("999")), ("height", Some("180"), None)] {
+        let mut j = with_shape("edit-group-value-shared-attribute", Fmt::Legacy, w, &sg);
+        j.muts = vec![Mut::EditGroupValue("g".into(), n.into(), raw.map(|x: &str| x.to_string()), enc.map(|x: &str| x.to_string()))];
+        jobs.push(j);
+    }
+    for (old, new) in [("name", "Name"), ("name", "n a m e"), ("height", "HEIGHT"), ("height", "salary")] {
+        let mut j = with_shape("rename-group-key", Fmt::Legacy, w, g);
+        j.muts = vec![Mut::RenameGroupKey("g".into(), old.into(), new.into())];
         jobs.push(j);
     }
     // a group request that names an attribute twice: the honest presentation has one entry fewer than names;
@@ -698,6 +766,18 @@ fn c03_jobs(r: &mut Rng, w: &World, thorough: bool) -> Vec<VJob> {
 fn c05_jobs(r: &mut Rng, w: &World, thorough: bool) -> Vec<VJob> {
     let mut jobs = common_families(r, w, thorough);
     jobs.extend(crafted_c05(w));
+    for fmt in [Fmt::Legacy, Fmt::W3C] {
+        for sname in ["two-creds-same-creddef", "two-creddefs-same-schema"] {
+            let s = shapes().into_iter().find(|s| s.0 == sname).unwrap();
+            for i in 0..2usize {
+                for cd in [vw::CD_IDS[0], vw::CD_IDS[1], vw::CD_IDS[3]] {
+                    let mut j = with_shape("relabel-creddef", fmt, w, &s);
+                    j.muts = if fmt == Fmt::Legacy { vec![Mut::IdentSet(i, "cred_def_id", json!(cd))] } else { vec![Mut::WIdent(i, "cred_def_id", json!(cd)), Mut::WIssuer(i, if cd == vw::CD_IDS[0] { "NcYxiDXkpYi6ov5FcYDi1e".into() } else if cd == vw::CD_IDS[1] { "did:web:issuer1.example".into() } else { "did:web:issuer2.example".into() })] };
+                    jobs.push(j);
+                }
+            }
+        }
+    }
     for fmt in [Fmt::Legacy, Fmt::W3C] {
         // a foreign holder's credential mixed in (proved with the presenting holder's link secret)
         let spec = ReqSpec::new(NONCE).attr("a_name", "name").attr("a_age", "age");
@@ -906,7 +986,8 @@ fn query_pool(depth: u32) -> Vec<Value> {
         json!({"schema_version": "1.0"}), json!({"schema_issuer_did": "NcYxiDXkpYi6ov5FcYDi1e"}), json!({"schema_issuer_id": "NcYxiDXkpYi6ov5FcYDi1e"}),
         json!({"issuer_did": "NcYxiDXkpYi6ov5FcYDi1e"}), json!({"issuer_id": "did:web:issuer1.example"}), json!({"issuer_did": "did:web:issuer1.example"}),
         json!({"cred_def_id": vw::CD_IDS[0]}), json!({"cred_def_id": vw::CD_IDS[1]}),
-        json!({"attr::name::value": "Alex"}), json!({"attr::name::value": "Bob"}), json!({"attr::name::marker": "1"}), json!({"attr::sex::value": "male"}),
+        json!({"attr::name::value": "Alex"}), json!({"attr::name::value": "Bob"}), json!({"attr::Name::value": "Alex"}), json!({"attr::Name::value": "Bob"}),
+        json!({"attr::N a m e::value": "Mallory"}), json!({"attr::NAME::marker": "1"}), json!({"attr::Zip Code::value": "008"}), json!({"attr::zipcode::value": "007"}), json!({"attr::name::marker": "1"}), json!({"attr::sex::value": "male"}),
         json!({"attr::zip::marker": "1"}), json!({"attr::age::value": "28"}), json!({"unknown_tag": "x"}), json!({"schema_name": {"$neq": "gvt"}}),
         json!({"schema_name": {"$in": ["gvt", "other"]}}), json!({"schema_name": {"$in": ["other"]}}), json!({"schema_name": {"$like": "gvt"}}), json!({"schema_version": {"$gt": "0"}}),
         json!({"$exist": ["schema_name"]}), json!({}),
@@ -939,8 +1020,10 @@ fn c06_jobs(r: &mut Rng, w: &World, thorough: bool) -> Vec<VJob> {
              vec![pick(0, &[("a_name", true), ("a_sex", false), ("g", true)], &["p_age"], None)], vec!["a_name", "a_sex", "p_age", "g"]),
             ("two-creds", ReqSpec::new(NONCE).attr("a_name", "name").attr("a_zip", "zipcode").pred("p_sal", "salary", ">", 1000),
              vec![pick(1, &[("a_name", true)], &[], None), pick(2, &[("a_zip", true)], &["p_sal"], None)], vec!["a_name", "a_zip", "p_sal"]),
-            ("case-variant", ReqSpec::new(NONCE).attr("a_name", "Name").attr("a_age", "age"),
-             vec![pick(2, &[("a_name", true), ("a_age", false)], &[], None)], vec!["a_name", "a_age"]),
+            ("case-variant", ReqSpec::new(NONCE).attr("a_name", "Name").attr("a_age", "age").attr("a_zip", "Zip Code"),
+             vec![pick(2, &[("a_name", true), ("a_age", false), ("a_zip", true)], &[], None)], vec!["a_name", "a_age", "a_zip"]),
+            ("same-key-attr-and-pred", ReqSpec::new(NONCE).attr("1", "name").pred("1", "salary", ">", 1000),
+             vec![pick(1, &[("1", true)], &[], None), pick(2, &[], &["1"], None)], vec!["1"]),
         ];
         for (sname, spec, picks, refs) in &setups {
             for q in &pool {
